@@ -1489,6 +1489,13 @@ def run(tier):
                'strategy_hierarchical': {'get_passes', 'get_pass'}},
               'the pass that is built from it afterwards is empty: enabled '
               'mutators are never scheduled')
+    from . import c04 as _c04
+    sub04 = Check('C04', 'other', tier, [], [])
+    _cg, _zone, _via = _c04.compute_zone(prog)
+    chk.guard(_c04.rule_r1, sub04, prog, _cg, _zone)
+    Check.restrict(sub04, lambda wh, what: 'loop over' in what
+                   or 'continues with the next mutator' in what)
+    chk.adopt('C14.R11', 'every enabled mutator is asked for every node: a failure of one mutator does not end the loop over the mutators (shared with the per-mutator part of C04.R1)', sub04)
     extra = None
     if tier == 'thorough':
         from .. import selftest
